@@ -10,7 +10,11 @@
      compared with the value handed to the Kepler solver (hook ksolve);
    * Switch.tla: what one integrator leaves in the simulation object (selected gravity routine, registered N-body ODE)
      and what the next does with it; every history of <= 3 segments (891) is executed, its error may not exceed 30 x the
-     sum of the errors its integrators make on their own; three negative models (no gravity fall-back, stale ODE kept, ignore flag not cleared) must fail.
+     sum of the errors its integrators make on their own;
+   * TraceStep.tla: one TRACE step as a state machine over the answers of the two switching functions (pre-check, attempt,
+     post-check, reject / redo): encounter list covers every flagged pair, flags only grow, at most one redo, balanced words,
+     rejection iff something new, exact restore; hook traces of every scripted answer pattern (N=4, 3 active: 16384 per
+     pericentre mode in the thorough tier) and of real close-encounter dynamics are validated by TLC; three negative models (no gravity fall-back, stale ODE kept, ignore flag not cleared) must fail.
  Sampled part (A5)
    * star + planet: every Wisdom-Holman scheme in Jacobi / WHDS coordinates (all kernels, correctors, SABA) reproduces the analytic orbit (independent Kepler solution in the
      harness) to 1e-10 after 200 steps, both directions of time;
@@ -25,6 +29,7 @@ import re
 import shutil
 
 import common
+import tracestep
 from common import MachineryError
 
 LEVEL = "model_checking"
@@ -85,6 +90,8 @@ def _run(tier, rep, sc):
             return
         raise MachineryError("worker failed: %s" % r.stderr[-2500:])
     o = json.load(open(out))
+    # the TRACE step machine: model, negative model, hook traces of scripted and real switching functions
+    tracestep.run(rep, tier, sc)
     if tier == "thorough":
         # the histories that change N around a BS segment once more under ASan + UBSan
         try:
